@@ -86,6 +86,16 @@ namespace awkward {
           }
         }
       }
+      ContentPtr base = content_;
+      if (VirtualArray* a = dynamic_cast<VirtualArray*>(content_.get())) {
+        base = a->array();
+      }
+      if (SliceField* raw = dynamic_cast<SliceField*>(head.get())) {
+        return base.get()->getitem_field(raw->key());
+      }
+      if (SliceFields* raw = dynamic_cast<SliceFields*>(head.get())) {
+        return base.get()->getitem_fields(raw->keys());
+      }
     }
     if (VirtualArray* a = dynamic_cast<VirtualArray*>(content_.get())) {
       return a->array().get()->getitem(slice_);
